@@ -231,7 +231,9 @@ def record(run):
         algo, form = run["algo"], run.get("form", "function")
         init = None if not run.get("init") else X[run["init"]]
         if run.get("initXY"):          # initial centers that are not frames of the data (k-centers only)
-            init = (np.array(run["initXY"], dtype="float64").reshape(len(run["initXY"]), -1) * scale).astype(dtn)
+            init = np.array(run["initXY"], dtype="float64").reshape(len(run["initXY"]), -1) * scale
+            if np.array_equal(init, np.rint(init)) or not dtn.startswith(("int", "uint")):
+                init = init.astype(dtn)           # (fractional centers next to integer data stay floats)
         if init is not None:
             # half of the warm starts hand the centers over as a Python list of rows -- the SAME list object in the
             # repeated execution, as a caller who keeps its seed centers around would
